@@ -17,7 +17,7 @@ SWAP_CMP = {"Gt": "Lt", "GtE": "LtE"}
 
 
 class Node:
-    __slots__ = ("id", "op", "args", "attr", "site", "extra")
+    __slots__ = ("id", "op", "args", "attr", "site", "extra", "fn")
 
     def __init__(self, nid, op, args, attr, site):
         self.id = nid
@@ -26,6 +26,7 @@ class Node:
         self.attr = attr
         self.site = site
         self.extra = None
+        self.fn = None
 
     def __hash__(self):
         return self.id
